@@ -84,7 +84,9 @@ func (c *Ctx) checkShapes(rule, fnKey string, f *ssa.Function, got map[string][]
 		for k, v := range got {
 			merged[k] = v
 		}
-		for _, alt := range []map[string][]string{returnShapesO(f, o), abbrMap(returnShapesO(f, o))} {
+		of := o
+		of.fills = true
+		for _, alt := range []map[string][]string{returnShapesO(f, o), abbrMap(returnShapesO(f, o)), returnShapesO(f, of), abbrMap(returnShapesO(f, of))} {
 			for slot, ws := range want {
 				one := map[string][]string{slot: ws}
 				if !shapesSatisfy(merged, one) && shapesSatisfy(alt, one) {
@@ -265,5 +267,8 @@ var cellParamRe = regexp.MustCompile(`cell\((p\d+)\)`)
 // looseForm drops distinctions that do not change what a location or value is:
 // address-of markers and the local cell a by-value parameter is spilled into.
 func looseForm(x string) string {
-	return cellParamRe.ReplaceAllString(strings.ReplaceAll(x, "&", ""), "$1")
+	// append-in-a-loop onto an empty slice and indexed fill of a pre-sized one denote the same sequence
+	// the value of a two-result map lookup is the value of the plain lookup
+	x = strings.ReplaceAll(x, "]#0", "]")
+	return normEach(cellParamRe.ReplaceAllString(strings.ReplaceAll(x, "&", ""), "$1"))
 }
